@@ -7,7 +7,9 @@ LINTS = ["#[allow(dead_code)]", "#[allow(unused, clippy::all)]", "#[cfg_attr(all
          "#[cfg(not(any()))]"]
 # strum attributes that concern other derives only (EnumMessage, EnumProperty); legal on any variant
 OTHER_STRUM = ['#[strum(message = "a message")]', '#[strum(detailed_message = "details {0} {x}")]', '#[strum(props(key = "value", n = 3))]',
-               '#[strum(props(flag = true))]']
+               '#[strum(props(flag = true))]',
+               # property KEYS that merely look like strum keywords: they are data, not switches
+               '#[strum(props(disabled = "true", default = "x"))]', '#[strum(props(transparent = "no", serialize = "s", to_string = "t"))]']
 
 
 def variant_noise(rng, p=0.3, other_strum=True, existing=""):
@@ -43,4 +45,23 @@ def place(rng, existing, extra):
     out = list(existing)
     for e in extra:
         out.insert(rng.randrange(0, len(out) + 1), e)
+    return out
+
+
+def fold_disabled(rng, lines):
+    """`disabled` need not stand alone: half of the time it is merged into another #[strum(...)] list of the same
+    variant (before or after the other entries), or gets a neighbour of its own."""
+    if "#[strum(disabled)]" not in lines or rng.random() < 0.4:
+        return lines
+    others = [i for i, l in enumerate(lines) if l.startswith("#[strum(") and l != "#[strum(disabled)]" and l.endswith(")]")]
+    out = list(lines)
+    if others:
+        i = rng.choice(others)
+        inner = out[i][len("#[strum("):-2]
+        out[i] = "#[strum(disabled, %s)]" % inner if rng.random() < 0.5 else "#[strum(%s, disabled)]" % inner
+        out.remove("#[strum(disabled)]")
+    else:
+        j = out.index("#[strum(disabled)]")
+        out[j] = rng.choice(['#[strum(disabled, props(k = "v"))]', '#[strum(props(k = "v"), disabled)]',
+                             '#[strum(props(gone = true), disabled)]'])
     return out
